@@ -878,6 +878,14 @@ fn main() {
             .into(),
     );
     rep.assumptions.push(
+        "scale family (deterministic, classes scale-*; three window scripts only): alignment 10 241 / 20 481 (thorough also 25 000) minimal records = more than \
+         one CRAM container and several BGZF blocks; single records of 70 000 / 150 000 (thorough 300 000) bases, mapped with a long CIGAR and unmapped, and a \
+         100 kB Z tag between small records; variant dictionaries of 130 / 260 (thorough 32 770) extra FILTERs plus extra INFO/FORMAT keys used in windows around \
+         dictionary positions 128 / 256 / 32 768, records with a 70 kB / 140 kB INFO String and a 100 kB ALT, 3000 samples with GT:DP:AD:PL:XT; all through every \
+         pair, read_record into one reused record, records(), and the whole conversion matrix"
+            .into(),
+    );
+    rep.assumptions.push(
         "build_from_reader wraps the source in its own 8 KiB BufReader, so an outer BufReader of small capacity is bypassed; short first windows are produced \
          with vcore::adv::ChunkedRead scripts at the Read level (no Interrupted injections: C12's business); the async and indexed generic readers are not driven"
             .into(),
